@@ -257,6 +257,14 @@ def listify(t: T):
                 and not any(x.op == "star" for x in data.a[0] + sel.a[0]):
             return [(d, ((c, True),)) for d, c in zip(data.a[0], sel.a[0])]
         return None
+    if t.op == "comp" and t.a[0] in ("list", "gen") and len(t.a[2]) == 1 and not t.a[2][0][2]:
+        # [f(x) for x in L] over a list of that kind: f of each of its elements, under the element's conditions
+        evar, src, _ = t.a[2][0]
+        inner = listify(src)
+        if inner is None:
+            return None
+        from . import sym as _sym
+        return [(_sym.subst(t.a[1], {evar: e}), cd) for e, cd in inner]
     if t.op == "ite":
         a, b = listify(t.a[1]), listify(t.a[2])
         if a is None or b is None:
